@@ -5,15 +5,23 @@ package c20
 //
 //	c20 xsch <type name> <schema>      the schema the model uses for a Go type = the schema reflected from the real type
 //	c20 xpk <hex>                      parsePublicKey(RSA, …) on the subjectPublicKey bytes
+//	c20 xpa <algo> <hex key> <hex params> <ecbits>   parsePublicKey, any algorithm number; ecbits = elliptic.Unmarshal(curve,
+//	                                   key) != nil for P-224/256/384/521 (the model's abstract predicate ecOk)
 //	c20 xgn <hex>                      parseGeneralNames
 //	c20 xpc <ext>[,<ext>…]             parseCertificate on a fixed well-formed certificate whose extension list is
 //	                                   replaced; <ext> = <oid>:<t|f critical>:<hex value>:<strict tok>:<perm tok>, the two
 //	                                   tokens being the outcome of the opaque sub-parser of that extension (Tor, SCT
-//	                                   list, QCStatements.Parse) in each mode ("-" when the extension has none)
+//	                                   QCStatements.Parse) in each mode, for the SCT list "d" + the DeserializeSCT bits
+//	                                   ("-" when the extension has none)
+//	c20 xsub <oid> <hex value>         T3-only: the hypothesis "the sub-parser itself is conservative" on the real Tor /
+//	                                   SCT-list / QCStatements sub-parser
 //
 // Output "<strict>|<permissive>", each "err" or "ok <canonical fields>".
 
 import (
+	"bytes"
+	"crypto/ed25519"
+	"crypto/elliptic"
 	"fmt"
 	"math/big"
 	"net"
@@ -21,9 +29,13 @@ import (
 	"sort"
 	"strconv"
 	"strings"
+	"time"
 
+	"github.com/zmap/zcrypto/dsa"
 	"github.com/zmap/zcrypto/encoding/asn1"
+	"github.com/zmap/zcrypto/rsa"
 	"github.com/zmap/zcrypto/x509"
+	"github.com/zmap/zcrypto/x509/ct"
 	"github.com/zmap/zcrypto/x509/pkix"
 
 	"zv/internal/zv"
@@ -112,6 +124,44 @@ type gnOut struct {
 	failed []asn1.RawValue
 }
 
+func oidList(l []asn1.ObjectIdentifier) string {
+	var o []string
+	for _, x := range l {
+		o = append(o, dumpOf(x))
+	}
+	return strings.Join(o, ",")
+}
+
+// rdnString renders a decoded RDNSequence with the Go values of its ANY fields (RDNs joined by "_", attributes by "+").
+func rdnString(rdns pkix.RDNSequence) string {
+	var rs []string
+	for _, rdn := range rdns {
+		var as []string
+		for _, atv := range rdn {
+			v := "?"
+			switch x := atv.Value.(type) {
+			case nil:
+				v = "n"
+			case string:
+				v = "x" + c18Hex([]byte(x))
+			case []byte:
+				v = "x" + c18Hex(x)
+			case int64:
+				v = "i" + strconv.FormatInt(x, 10)
+			case asn1.BitString:
+				v = dumpOf(x)
+			case asn1.ObjectIdentifier:
+				v = dumpOf(x)
+			case time.Time:
+				v = "T"
+			}
+			as = append(as, dumpOf(atv.Type)+"="+v)
+		}
+		rs = append(rs, strings.Join(as, "+"))
+	}
+	return strings.Join(rs, "_")
+}
+
 func rawList(l []asn1.RawValue) string {
 	var o []string
 	for _, x := range l {
@@ -126,7 +176,7 @@ func (g gnOut) String() string {
 		other = append(other, dumpOf(x))
 	}
 	for _, x := range g.dir {
-		dir = append(dir, strconv.Itoa(len(x.OriginalRDNS)))
+		dir = append(dir, rdnString(x.OriginalRDNS))
 	}
 	for _, x := range g.edi {
 		edi = append(edi, dumpOf(x))
@@ -175,7 +225,7 @@ func dumpCertX(c *x509.Certificate) string {
 			o = append(o, nce(3, dumpOf(x.Data), x.Min, x.Max))
 		}
 		for _, x := range dir {
-			o = append(o, nce(4, strconv.Itoa(len(x.Data.OriginalRDNS)), x.Min, x.Max))
+			o = append(o, nce(4, rdnString(x.Data.OriginalRDNS), x.Min, x.Max))
 		}
 		for _, x := range edi {
 			o = append(o, nce(5, dumpOf(x.Data), x.Min, x.Max))
@@ -222,7 +272,7 @@ func dumpCertX(c *x509.Certificate) string {
 		"excl=[" + nc(c.ExcludedEmailAddresses, c.ExcludedDNSNames, c.ExcludedX400Addresses, c.ExcludedDirectoryNames, c.ExcludedEdiPartyNames, c.ExcludedURIs, c.ExcludedIPAddresses, c.ExcludedRegisteredIDs) + "]",
 		"crl=[" + hexs(c.CRLDistributionPoints) + "]",
 		"aki=" + oct(c.AuthorityKeyId), "ski=" + oct(c.SubjectKeyId),
-		"eku=" + strconv.Itoa(len(c.ExtKeyUsage)+len(c.UnknownExtKeyUsage)),
+		"eku=" + strconv.Itoa(len(c.ExtKeyUsage)) + "[" + oidList(c.UnknownExtKeyUsage) + "]",
 		"pol=" + pol,
 		"ocsp=[" + hexs(c.OCSPServer) + "]", "iss=[" + hexs(c.IssuingCertificateURL) + "]",
 		"sct=" + strconv.Itoa(len(c.SignedCertificateTimestampList)), "pre=" + tf(c.IsPrecert),
@@ -261,8 +311,54 @@ var (
 	xoidQC  = asn1.ObjectIdentifier{1, 3, 6, 1, 5, 5, 7, 1, 3}
 )
 
-// subTok is the outcome of the opaque sub-parser of the extension in the CURRENT mode (call under withMode).
-func subTok(e pkix.Extension) (tok string) {
+// sctBits: the nil-ness of ct.DeserializeSCT's error for the successive SCTs of the list, in the CURRENT mode (the
+// model's `deser`), as "d" + 0/1 per call; the framing is re-implemented here only to find the chunks.
+func sctBits(value []byte) string {
+	out := "d"
+	var scts []byte
+	if _, err := asn1.Unmarshal(value, &scts); err != nil || len(scts) < 2 {
+		return out
+	}
+	scts = scts[2:]
+	for len(scts) >= 2 {
+		l := int(scts[1]) + int(scts[0])<<8 + 2
+		if l > len(scts) {
+			break
+		}
+		if _, err := ct.DeserializeSCT(bytes.NewReader(scts[2:l])); err != nil {
+			return out + "0"
+		}
+		out += "1"
+		scts = scts[l:]
+	}
+	return out
+}
+
+// subTok is what the case line carries for the extension in the CURRENT mode (call under withMode): the outcome of the
+// opaque sub-parser (Tor, QCStatements.Parse), or the DeserializeSCT bits for the modelled SCT-list parser.
+func subTok(e pkix.Extension) string {
+	if e.Id.Equal(xoidSCT) {
+		return sctBits(e.Value)
+	}
+	return subOutcome(e)
+}
+
+// conservativeViol checks the hypothesis X.Sub.Conservative on the real sub-parser of e: a strict success must be the
+// permissive result too.
+func conservativeViol(e pkix.Extension) string {
+	s := withMode(false, func() string { return subOutcome(e) })
+	p := withMode(true, func() string { return subOutcome(e) })
+	if s == "panic" || p == "panic" {
+		return "sub-parser panics: " + s + " / " + p
+	}
+	if strings.HasPrefix(s, "n") && p != s {
+		return "hypothesis X.Sub.Conservative fails on the real sub-parser of " + e.Id.String() + ": strict " + s + ", permissive " + p
+	}
+	return ""
+}
+
+// subOutcome is the outcome of the sub-parser of the extension in the CURRENT mode (call under withMode).
+func subOutcome(e pkix.Extension) (tok string) {
 	defer func() {
 		if p := recover(); p != nil {
 			tok = "panic"
@@ -305,6 +401,51 @@ func extToken(e pkix.Extension) string {
 	return strings.Join(a, ".") + ":" + tf(e.Critical) + ":" + c18Hex(e.Value) + ":" + s + ":" + p
 }
 
+var xCurves = []elliptic.Curve{elliptic.P224(), elliptic.P256(), elliptic.P384(), elliptic.P521()}
+
+// ecBits: elliptic.Unmarshal(curve, data) != nil for the four named curves, as a 0/1 string.
+func ecBits(data []byte) string {
+	s := ""
+	for _, c := range xCurves {
+		ok := false
+		func() {
+			defer func() { recover() }()
+			x, _ := elliptic.Unmarshal(c, data)
+			ok = x != nil
+		}()
+		if ok {
+			s += "1"
+		} else {
+			s += "0"
+		}
+	}
+	return s
+}
+
+func keyString(k interface{}) string {
+	switch v := k.(type) {
+	case nil:
+		return "nil"
+	case *rsa.PublicKey:
+		return "rsa " + v.N.String() + " " + v.E.String()
+	case *dsa.PublicKey:
+		return "dsa " + v.Y.String() + " " + v.P.String() + " " + v.Q.String() + " " + v.G.String()
+	case *x509.AugmentedECDSA:
+		ci := -1
+		for i, c := range xCurves {
+			if v.Pub.Curve == c {
+				ci = i
+			}
+		}
+		return "ecdsa " + strconv.Itoa(ci) + " " + c18Hex(v.Raw.Bytes)
+	case ed25519.PublicKey:
+		return "ed25519 " + c18Hex(v)
+	case x509.X25519PublicKey:
+		return "x25519 " + c18Hex(v)
+	}
+	return fmt.Sprintf("unknown-key-type %T", k)
+}
+
 func execX(f []string) zv.Out {
 	var run func() string
 	tag := "x509:" + f[1]
@@ -330,6 +471,38 @@ func execX(f []string) zv.Out {
 			e := v.FieldByName("E").Interface().(*big.Int)
 			return "ok rsa " + n.String() + " " + e.String()
 		}
+	case f[1] == "xsub" && len(f) == 4: // T3-only: the hypothesis X.Sub.Conservative on the real sub-parsers
+		e := parseXExts(f[2] + ":f:" + f[3] + ":-:-")[0].ext
+		s := withMode(false, func() string { return subOutcome(e) })
+		p := withMode(true, func() string { return subOutcome(e) })
+		o := zv.Out{Go: "", Viol: conservativeViol(e), Tags: []string{"x509:xsub:" + f[2]}}
+		switch {
+		case strings.HasPrefix(s, "n"):
+			o.Tags = append(o.Tags, "x509:xsub:strict-ok")
+		case strings.HasPrefix(p, "n"):
+			o.Tags = append(o.Tags, "x509:xsub:perm-only-ok")
+		default:
+			o.Tags = append(o.Tags, "x509:xsub:both-err")
+		}
+		return o
+	case f[1] == "xpa" && len(f) == 6:
+		algo, err := strconv.Atoi(f[2])
+		if err != nil {
+			return zv.Out{Go: "bad-op"}
+		}
+		key, params := zv.UnHex(f[3]), zv.UnHex(f[4])
+		if ecBits(key) != f[5] {
+			return zv.Out{Go: "oracle-mismatch", Viol: "ecbits on the case line differ from elliptic.Unmarshal"}
+		}
+		tag += ":" + strconv.Itoa(algo)
+		run = func() string {
+			k, err := x509.ZVC20ParsePublicKey(x509.PublicKeyAlgorithm(algo), pkix.AlgorithmIdentifier{Parameters: asn1.RawValue{FullBytes: params}},
+				asn1.BitString{Bytes: key, BitLength: 8 * len(key)})
+			if err != nil {
+				return "err"
+			}
+			return "ok " + keyString(k)
+		}
 	case f[1] == "xgn" && len(f) == 3:
 		val := zv.UnHex(f[2])
 		run = func() string {
@@ -351,6 +524,9 @@ func execX(f []string) zv.Out {
 			}
 			if len(xs) == 1 {
 				tag += ":" + x.ext.Id.String()
+			}
+			if v := conservativeViol(x.ext); v != "" {
+				return zv.Out{Go: "", Viol: v, Tags: []string{"x509:sub-hypothesis-violated"}}
 			}
 		}
 		if len(xs) > 1 {
@@ -451,6 +627,51 @@ func genX(g *zv.Gen) {
 	for _, h := range []string{"3006020105020103", "3006020100020103", "30060201050201ff", "300602018502017f", "30070202000502010300", "3007028101050201030500"} {
 		g.Emitf("c20 xpk %s", h)
 	}
+	// parsePublicKey, every arm
+	curveOIDs := [][]byte{oid(1, 3, 132, 0, 33), oid(1, 2, 840, 10045, 3, 1, 7), oid(1, 3, 132, 0, 34), oid(1, 3, 132, 0, 35), oid(1, 3, 132, 0, 10), oid(1, 2, 3)}
+	for i, n := 0, g.N(1500, 20000); i < n; i++ {
+		algo := r.Intn(7)
+		var key, params []byte
+		switch algo {
+		case 1:
+			key = tl(0x30, intOf(), intOf())
+		case 2:
+			key = intOf()
+			params = tl(0x30, intOf(), intOf(), intOf())
+			if r.Chance(5) {
+				params = cat(params, []byte{0})
+			}
+		case 3:
+			c := r.Intn(len(curveOIDs))
+			params = curveOIDs[c]
+			if c < len(xCurves) && r.Chance(75) {
+				x, y := xCurves[c].ScalarBaseMult(r.Bytes(16))
+				if r.Bool() {
+					key = elliptic.Marshal(xCurves[c], x, y)
+				} else {
+					key = elliptic.MarshalCompressed(xCurves[c], x, y)
+				}
+				if r.Chance(15) {
+					key[len(key)-1] ^= 1
+				}
+			} else {
+				key = r.Bytes([]int{0, 1, 33, 57, 65}[r.Intn(5)])
+			}
+		default:
+			key = r.Bytes([]int{0, 16, 31, 32, 32, 32, 33, 64}[r.Intn(8)])
+			if r.Chance(30) {
+				params = []byte{5, 0}
+			}
+		}
+		if r.Chance(25) && len(params) > 0 {
+			params = mut(params)
+		}
+		if r.Chance(15) && len(key) > 0 && algo <= 2 {
+			key = mut(key)
+		}
+		g.Emitf("c20 xpa %d %s %s %s", algo, c18Hex(key), c18Hex(params), ecBits(key))
+	}
+	g.Emitf("c20 xpa 2 02810105 3009020107020103020102 %s", ecBits([]byte{2, 0x81, 1, 5}))
 	// parseGeneralNames
 	for i, n := 0, g.N(2500, 40000); i < n; i++ {
 		v := rGeneralNames(r, r.Intn(2))
@@ -475,6 +696,20 @@ func genX(g *zv.Gen) {
 				b = mut(b)
 			}
 			g.Emitf("c20 xpc %s", extToken(pkix.Extension{Id: asn1.ObjectIdentifier(sp.oid), Critical: r.Chance(25), Value: b}))
+		}
+	}
+	// T3-only: the assumed conservativity of the opaque sub-parsers (and of the modelled SCT list), on the real code
+	for _, sp := range extSpecs {
+		id := asn1.ObjectIdentifier(sp.oid)
+		if !id.Equal(xoidTor) && !id.Equal(xoidSCT) && !id.Equal(xoidQC) {
+			continue
+		}
+		for i, n := 0, g.N(500, 10000); i < n; i++ {
+			b := sp.body(r)
+			if i%3 != 0 {
+				b = mut(b)
+			}
+			g.Emitf("c20 xsub %s %s", id.String(), c18Hex(b))
 		}
 	}
 	for i, n := 0, g.N(800, 20000); i < n; i++ {
